@@ -15,6 +15,7 @@ import (
 	sse "github.com/tmaxmax/go-sse"
 	"github.com/tmaxmax/go-sse/vrt"
 
+	"verif/sq/ref"
 	"verif/vs/ch"
 	"verif/vs/run"
 )
@@ -311,6 +312,14 @@ func check(p Params) func(r *vrt.Result) string {
 			return fmt.Sprintf("%d attempts were made, want %d (the connection ended and must be retried MaxRetries times): %s", len(w.T.Attempts), wantAttempts, desc)
 		}
 		switch {
+		case w.End == "errwrap":
+			if !errors.Is(w.Err, ch.ErrReadWrapsEOF) || errors.Is(w.Err, sse.ErrUnexpectedEOF) {
+				return fmt.Sprintf("the body failed with a read error that wraps io.EOF but Connect reports %v: %s", ce.Err, desc)
+			}
+			// nothing that was pending when the read failed may have been dispatched
+			if n := len(ref.Interpret(w.Body, ref.Mode{RetryDispatches: true, NoFlushAtEnd: true}).Events) * len(w.T.Attempts); w.Events != n {
+				return fmt.Sprintf("the body failed with a read error that wraps io.EOF: %d events were dispatched over %d attempts, want %d (a pending event is not dispatched at a read error): %s", w.Events, len(w.T.Attempts), n, desc)
+			}
 		case w.End == "err":
 			if !errors.Is(w.Err, ch.ErrRead) {
 				where := "on a line boundary"
@@ -368,7 +377,7 @@ func sig(r *vrt.Result, msg string) string {
 // readPart checks sse.Read directly (no scheduler needed): the same bodies and endings.
 func readCheck(bodies []string) string {
 	for _, b := range bodies {
-		for _, end := range []string{"eof", "err"} {
+		for _, end := range []string{"eof", "err", "errwrap"} {
 			for _, chunk := range []int{0, 1} {
 				bd := &ch.Body{O: ch.Outcome{Kind: "ok", Stream: b, End: end, Chunk: chunk}}
 				var got error
@@ -386,6 +395,8 @@ func readCheck(bodies []string) string {
 					return "more than one error yielded: " + desc
 				case end == "err" && got != ch.ErrRead:
 					return fmt.Sprintf("the reader failed with a read error but Read yields %v: %s", got, desc)
+				case end == "errwrap" && !errors.Is(got, ch.ErrReadWrapsEOF):
+					return fmt.Sprintf("the reader failed with a read error that wraps io.EOF but Read yields %v: %s", got, desc)
 				case end == "eof" && midLine(b) && got != sse.ErrUnexpectedEOF:
 					return fmt.Sprintf("the stream ended cleanly inside a line but Read yields %v instead of ErrUnexpectedEOF: %s", got, desc)
 				case end == "eof" && !midLine(b) && got != nil:
@@ -416,7 +427,7 @@ func Scenarios(tier string) []run.Scenario {
 				if hi > len(bodies) {
 					hi = len(bodies)
 				}
-				add(Params{MaxRetries: mr, Chunk: chunk, Bodies: bodies, Lo: lo, Hi: hi, Ends: []string{"eof", "err", "cancel"}})
+				add(Params{MaxRetries: mr, Chunk: chunk, Bodies: bodies, Lo: lo, Hi: hi, Ends: []string{"eof", "err", "cancel", "errwrap"}})
 			}
 		}
 	}
@@ -486,7 +497,7 @@ func Scenarios(tier string) []run.Scenario {
 
 var Check = &run.Check{
 	ID: "C11", Level: "model_checking",
-	Rule: "Scenarios: the real Connect loop on the virtual clock; the response body is every distinct prefix (cut after any byte) of every string of <= 4 (thorough 5) tokens over {LF, data:x, :c, foo, id:a, retry:1, d}, ending with a clean EOF, a read error, or a cancellation of the request context at that read; delivered whole or byte at a time; MaxRetries -1 / 1 / 2; validator accepting or rejecting (with a plain error, one that wraps context.DeadlineExceeded, one that has a Temporary method); plus a second thread that cancels at every possible moment (before the attempt, between any two reads, while Connect waits for its retry timer - all interleavings), plus request contexts whose deadline falls between, at or after the retry instants; plus three Connect calls on one Connection (each must retry afresh); a request body without GetBody when no retry is due; a callback that cancels the request context while complete events are still buffered; plus the same bodies through sse.Read. Body and ending are explorer choices inside each scenario.",
+	Rule: "Scenarios: the real Connect loop on the virtual clock; the response body is every distinct prefix (cut after any byte) of every string of <= 4 (thorough 5) tokens over {LF, data:x, :c, foo, id:a, retry:1, d}, ending with a clean EOF, a read error (plain, or wrapping io.EOF), or a cancellation of the request context at that read; delivered whole or byte at a time; MaxRetries -1 / 1 / 2; validator accepting or rejecting (with a plain error, one that wraps context.DeadlineExceeded, one that has a Temporary method); plus a second thread that cancels at every possible moment (before the attempt, between any two reads, while Connect waits for its retry timer - all interleavings), plus request contexts whose deadline falls between, at or after the retry instants; plus three Connect calls on one Connection (each must retry afresh); a request body without GetBody when no retry is due; a callback that cancels the request context while complete events are still buffered; plus the same bodies through sse.Read. Body and ending are explorer choices inside each scenario.",
 	Assumptions: []string{
 		"a cancelled request makes the response body fail with the context's error (net/http's documented behaviour), reproduced by the harness body",
 	},
